@@ -7,7 +7,9 @@ Alphabet == {"open", "data-valid", "data-unknown", "data-closed", "data-malforme
 Seqs(n) == UNION {[1..k -> Alphabet] : k \in 1..n}
 UrlClasses == {"abs-http-foreign", "abs-https-foreign", "abs-ws-foreign", "abs-wss-foreign", "scheme-relative", "path-only", "path-query",
                "opaque", "opaque-mailto", "empty", "userinfo", "ipv6", "odd-port", "empty-port", "fragment", "parse-error", "raw-bytes",
-               "backend-host", "dot-segments", "encoded-path"}
+               "backend-host", "dot-segments", "encoded-path",
+               \* the backend itself answers the handshake with a redirect to another host: not followed
+               "backend-redirect-301", "backend-redirect-302", "backend-redirect-307", "backend-redirect-308", "backend-redirect-relative"}
 \* a reserved character of URL syntax inside a component where it does not delimit anything (an "@" in the query,
 \* a ":" in the path, a "?" in the fragment ...), for absolute, scheme-relative and relative references with and
 \* without a path: whatever the character seems to say, the connection goes to the configured backend
